@@ -156,7 +156,7 @@ fn replay_hang(doc: &serde_json::Value, path: &str) -> i32 {
         _ => Tier::Quick,
     };
     let run_seed = doc["run_seed"].as_u64().unwrap_or(0);
-    let limit = Duration::from_secs(env_u64("VERIF_HANG_SECS", 120).min(60));
+    let limit = Duration::from_secs(env_u64("VERIF_HANG_SECS", 150).min(60));
     let (tx, rx) = std::sync::mpsc::channel();
     let id = spec.id;
     std::thread::Builder::new()
@@ -405,7 +405,7 @@ fn cmd_run(args: &[String]) -> i32 {
     // a run that does not come back: the code under test blocks or spins for ever.
     // Reported from the monitor thread, which then ends the process (the stuck
     // worker cannot be joined).
-    let hang_after = Duration::from_secs(env_u64("VERIF_HANG_SECS", 120));
+    let hang_after = Duration::from_secs(env_u64("VERIF_HANG_SECS", 150));
     let (prop_id, engine, tier_name) = (spec.id, spec.engine, tier.name());
     let rdir = replay_dir.clone();
     let on_hang = move |index: u64, run_seed: u64| {
